@@ -681,9 +681,11 @@ ElemNumber::getPreviousNode(
 
             if(0 == next)
             {
-                next = pos->getParentNode();
+                // The parent of an attribute is its owner element,
+                // which getParentNode() does not return.
+                next = DOMServices::getParentOfNode(*pos);
 
-                // An attribute or namespace node has no parent node
+                // A namespace node may still have no parent
                 // here, so next can be null.
                 if(0 == next ||
                    next->getNodeType() == XalanNode::DOCUMENT_NODE ||
